@@ -66,7 +66,8 @@ func (c Case) Describe() string {
 	return fmt.Sprintf("actors %v | pre: %s | ops%s: %s", c.Actors, f(c.Pre), r, f(c.Ops))
 }
 
-var types = []string{"A", "B", "C"}
+var types = []string{"A", "B", "C", "K"} // K = the library's own ves.ActorKilledEvent, published on every termination
+var pubTypes = []string{"A", "B", "C"}
 
 func genOps(t *rapid.T, actors []string, n int, nextID *int, allowDeath bool) []Op {
 	var ops []Op
@@ -82,7 +83,7 @@ func genOps(t *rapid.T, actors []string, n int, nextID *int, allowDeath bool) []
 			if rapid.IntRange(0, 3).Draw(t, "outside") > 0 {
 				o.Actor = rapid.SampledFrom(actors).Draw(t, "publisher")
 			}
-			o.Ev = rapid.SampledFrom(types).Draw(t, "ev")
+			o.Ev = rapid.SampledFrom(pubTypes).Draw(t, "ev")
 			*nextID++
 			o.ID = *nextID
 		case "sub", "unsub":
@@ -156,6 +157,8 @@ func typeName(ev string) string {
 		return "world.EvA"
 	case "B":
 		return "*world.EvB"
+	case "K":
+		return "ves.ActorKilledEvent"
 	}
 	return "world.EvC"
 }
@@ -286,12 +289,46 @@ func run(t *testing.T, c Case) (v *verdict, nontrivial bool, labels []string) {
 		}
 		if !c.Racing {
 			for _, o := range c.Ops {
+				wasAlive := map[string]bool{}
+				for k, x := range m.alive {
+					wasAlive[k] = x
+				}
 				exec(w, o)
 				vt.Settle()
 				track(o)
 				lab["op:"+o.Kind] = true
 				if o.Kind == "pub" && !seqCheck(o) {
 					return
+				}
+				if o.Kind == "kill" && wasAlive[o.Actor] {
+					// the termination publishes ves.ActorKilledEvent: to the current subscribers of that
+					// type, never to the terminated actor itself
+					tr, obs := w.Snapshot()
+					for a := range m.subs["K"] {
+						n := 0
+						for _, e := range tr {
+							if e.Kind == "evt:Killed" && e.Actor == "/"+a && e.Note == "/"+o.Actor {
+								n++
+							}
+						}
+						if n != 1 {
+							v = &verdict{"C19/exactly-once|subscriber", fmt.Sprintf("%s is subscribed to ActorKilledEvent but received %d events for the termination of %s; case: %s", a, n, o.Actor, c.Describe())}
+							return
+						}
+						lab["killed-event-subscriber"] = true
+					}
+					for _, e := range tr {
+						if e.Kind == "evt:Killed" && e.Actor == "/"+o.Actor && e.Note == "/"+o.Actor {
+							v = &verdict{"C19/after-termination", fmt.Sprintf("%s received the ActorKilledEvent of its own termination; case: %s", o.Actor, c.Describe())}
+							return
+						}
+					}
+					for _, ob := range obs {
+						if ob.Type == "DeadLetter" && ob.Note == "ves.ActorKilledEvent" && ob.Actor == "/"+o.Actor {
+							v = &verdict{"C19/after-termination", fmt.Sprintf("an event published after the termination of %s was sent to it (dead letter of ves.ActorKilledEvent): its subscriptions were still in the tables; case: %s", o.Actor, c.Describe())}
+							return
+						}
+					}
 				}
 			}
 		} else {
@@ -417,7 +454,7 @@ func run(t *testing.T, c Case) (v *verdict, nontrivial bool, labels []string) {
 			}
 		}
 		// ---- a final publication of every type reaches exactly the model's subscribers (restart keeps subscriptions)
-		for i, t := range types {
+		for i, t := range pubTypes {
 			o := Op{Kind: "pub", Ev: t, ID: 90000 + i}
 			exec(w, o)
 			vt.Settle()
